@@ -29,8 +29,9 @@ class FakeSerial:
         self._dtr = v
 
     def open(self):
-        if self.env.get("open_fails"):
-            raise _real_serial.SerialException("could not open port %s" % self.port)
+        if self.env.get("open_fails") or not str(self.port).startswith(("/dev/", "COM")):
+            # only device names exist as serial ports; "host:port" strings and the like do not
+            raise _real_serial.SerialException("could not open port %s: No such file or directory" % self.port)
         self.is_open = True
         self.k.ev("serial-open", self.port)
         self.env["port"] = self
